@@ -11,12 +11,12 @@ for log in sys.argv[1:]:
         m = re.match(r"######## (C\d\d) (\w) (.*)", ln)
         if m:
             cur = (m.group(1), m.group(2))
-            runs[cur] = {"checks": {}, "confirm": [], "log": os.path.basename(log)}
+            runs.setdefault(cur, []).append({"checks": {}, "confirm": [], "log": os.path.basename(log)})
             last_check = None
             continue
         if cur is None:
             continue
-        r = runs[cur]
+        r = runs[cur][-1]
         if ln.startswith("test result:"):
             r["confirm"].append(ln.strip())
         m = re.match(r"## check (C\d\d)", ln)
@@ -28,7 +28,8 @@ for log in sys.argv[1:]:
             m2 = re.match(r"exit=(\d+)", ln)
             if m2:
                 r["checks"][last_check]["exit"] = int(m2.group(1))
-for (pid, x), r in sorted(runs.items()):
+for (pid, x), rl in sorted(runs.items()):
+    r = rl[0]
     src = os.path.join(SRC, pid, x)
     if not os.path.exists(os.path.join(src, "patch.diff")):
         continue
@@ -52,8 +53,10 @@ for (pid, x), r in sorted(runs.items()):
         "confirmed_by_me": confirmed,
         "confirmation": {"demo_on_unchanged_tree": c[0] if c else "", "suite_with_patch": c[1] if len(c) > 1 else "", "demo_with_patch": c[2] if len(c) > 2 else "",
                          "how": "scratch worktree /tmp/seed/%s: cargo test --offline --test demo (unchanged), git apply patch.diff, cargo test --offline --lib, cargo test --offline --test demo" % pid},
-        "checks_run": {k: {"command": "git -C /repo apply patch.diff; bin/check %s --tier quick; git -C /repo checkout -- ." % k,
-                           "exit": v.get("exit"), "detected": v.get("exit") == 1, "output": v["lines"][:8]} for k, v in r["checks"].items()},
+        "checks_run": [{"run": i + 1, "check": k, "command": "git -C /repo apply patch.diff; bin/check %s --tier quick; git -C /repo checkout -- ." % k,
+                        "exit": v.get("exit"), "detected": v.get("exit") == 1, "output": v["lines"][:8]}
+                       for i, rr in enumerate(rl) for k, v in rr["checks"].items()],
+        "note": "run 1 = the machinery as it was when the change was first tried; later runs = after the strengthening described in DESIGN.md section 14",
     }
     json.dump(meta, open(os.path.join(d, "meta.json"), "w"), indent=1)
-    print(meta["id"], "confirmed" if confirmed else "NOT CONFIRMED", {k: v.get("exit") for k, v in r["checks"].items()})
+    print(meta["id"], "confirmed" if confirmed else "NOT CONFIRMED", [(c["run"], c["check"], c["exit"]) for c in meta["checks_run"]])
